@@ -9,7 +9,7 @@ PROP = "C18"
 RULE = (
     "texts (<= 4 KB) from (a) a weighted alphabet of Hy's syntax-significant characters and tokens, (b) arbitrary Unicode "
     "text (incl. NUL, lone surrogates, astral and combining characters), (c) repetitions of one or two tokens (nesting depth <= 80 each: the reader's time grows roughly cubically with nesting depth, 2.6 s at depth 150, so deeper inputs only cost time), (d) unclosed prefixes nested deeper than the interpreter's recursion limit allows, (e) well-formed Engine-B programs cut at a random point with a trailing newline/space/stray delimiter appended, (f) mutations (delete/insert/duplicate/swap "
-    "spans, flip a delimiter, truncate) of windows of /repo/tests/**/*.hy; oracle: list(hy.read_many(text)) returns models "
+    "spans, flip a delimiter, truncate) of windows of /repo/tests/**/*.hy, (g) such texts ending in 1-8 line terminators (as str.splitlines counts them) and characters that are white space to Python but not to Hy's reader (U+0085, U+00A0, U+2028, U+3000, FS..US, ...); oracle: list(hy.read_many(text)) returns models "
     "or raises LexException/PrematureEndOfInput, nothing else, within 20 s (re-run with 120 s before reporting; the read runs in a helper process that can be killed); non-trivial = the text contains a "
     "syntax-significant character ( ) [ ] { } \" # \\ ; ' ` ~ and is distinct"
 )
@@ -217,7 +217,14 @@ def strategies():
         lambda pre, t, n, mid, u, m, suf: (pre + t * n + mid + u * m + suf)[:4096],
         alpha.map(lambda x: x[:20]), tok, st.integers(0, 80), st.sampled_from(["", "x", " ", "\n", '"']),
         tok, st.integers(0, 80), alpha.map(lambda x: x[:20]))
-    return dict(alphabet=alpha, unicode=anytext, mixed=mixed, mutated=mutated(), deep=deep, wellformed_cut=cut, unclosed_deep=deep2)
+    # texts (mostly malformed: cut programs, token soup) that END in line terminators as str.splitlines counts them and in
+    # characters that are white space to Python's str methods but not to Hy's reader: the reader's line/column accounting and the
+    # error constructors' view of the text (splitlines, strip) must agree or building the LexException itself fails (seeded C18-E)
+    ends = st.lists(st.sampled_from(["\n", "\n", "\r", "\r\n", "\x0b", "\x0c", "\x1c", "\x1d", "\x1e", "\x1f", "\x85", "\u2028", "\u2029", "\u3000",
+                                     "\xa0", "\u2003", " ", "\t"]), min_size=1, max_size=4).map("".join)
+    odd_ends = st.builds(lambda t, e, mid, e2: (t[:4000] + e + mid + e2), st.one_of(cut, cut, mixed, alpha, deep2.map(lambda x: x[:50])), ends,
+                         st.sampled_from(["", "", "", ")", "x", '"', "#", "\\"]), st.one_of(st.just(""), ends))
+    return dict(alphabet=alpha, unicode=anytext, mixed=mixed, mutated=mutated(), deep=deep, wellformed_cut=cut, unclosed_deep=deep2, odd_line_ends=odd_ends)
 
 
 def shard(ctx):
@@ -234,7 +241,7 @@ def shard(ctx):
         return one
 
     for kind, q, t in (("alphabet", 14000, 800000), ("mixed", 5000, 300000), ("unicode", 3000, 100000), ("mutated", 5000, 400000),
-                       ("deep", 1000, 40000), ("wellformed_cut", 9000, 600000), ("unclosed_deep", 500, 8000)):
+                       ("deep", 1000, 40000), ("wellformed_cut", 9000, 600000), ("unclosed_deep", 500, 8000), ("odd_line_ends", 5000, 300000)):
         ctx.hyp(strs[kind], runner(kind), ctx.per_shard(q, t), kind)
 
 
